@@ -440,6 +440,19 @@ def run(case):
             exp = ('err', e)
             # builtins may have partially applied nothing; restore to be safe
             ref = before
+        if op.get('refuse') and name == 'extend' and exp[0] == 'ok' and kind == 'list':
+            # extend() with a value in the middle which the node layer refuses: like list.extend over an iterator that fails half-way,
+            # what came before the failure is in (in both views), the rest is not
+            cut = int(op['r2'] * (len(vals) + 1))
+            ref = before
+            _cont = ref
+            for c in path:
+                _cont = _cont[c]
+            _cont.extend(copy.deepcopy(vals[:cut]))
+            vals = vals[:cut] + [_not_a_config_value] + vals[cut:]
+            exp = ('partial', None)
+            history[-1] = (list(path), kind, name, key, f'<{cut} value(s), a function object, then more>')
+            feats.append('refused_value_inside:list.extend')
         if op.get('refuse') and name in REFUSABLE and exp[0] == 'ok':
             # the same (valid) operation, but with a value the node layer refuses: it has to fail as a whole, nothing may have moved
             ref = before
@@ -469,6 +482,15 @@ def run(case):
                 break
         if vio:
             break
+        if exp[0] == 'partial':
+            if got[0] == 'ok':
+                feats.append('refused_value_accepted')
+                break
+            now = native(root)
+            if util.typed(now, ordered_maps=True) != util.typed(ref, ordered_maps=True):
+                vio.append({'mech': 'failed-operation-changed-tree:' + f'{kind}.{name}', 'what': f'{where}: extend failed at the refused value ({type(got[1]).__name__}); the tree is now {now!r}, expected (the values before it appended, nothing else) {ref!r}; history={history!r}; start={case["tree"]!r}'})
+                break
+            continue
         if exp[0] == 'refuse':
             if got[0] == 'ok':
                 feats.append('refused_value_accepted')          # (a library that can hold such values: nothing to compare the rest of the history with)
